@@ -38,6 +38,7 @@ def digest_cmd(argv):
     from sim.cli import load_check
 
     chk = load_check(a.check)
+    core.COLLECT_DIGESTS = True
     total = core.explore(chk, "quick", a.seed, a.workers, runs=a.runs, wall=3600)
     h = hashlib.sha256(core.jdump(total["digests"]).encode()).hexdigest()
     print(json.dumps(dict(check=a.check, runs=total["n"], digest=h, verdicts=total["verdicts"], errors=len(total["errors"]))))
